@@ -12,7 +12,7 @@ FUNCTIONS = [
     "Null.encode", "Null.decode", "Boolean.encode", "Boolean.decode",
     "Unsigned.encode", "Unsigned.decode", "Integer.encode", "Integer.decode",
     "Enumerated.encode[number]", "Enumerated.decode[Segmentation]", "Enumerated.encode[Segmentation name]",
-    "OctetString.encode", "OctetString.decode", "CharacterString.encode",
+    "OctetString.encode", "OctetString.decode", "CharacterString.encode", "CharacterString.__init__[copy]",
     "Date.encode", "Date.decode", "Time.encode", "Time.decode",
     "BitString.encode", "BitString.decode", "Real.encode", "Real.decode", "Double.encode", "Double.decode",
     "ObjectIdentifier.get_tuple", "ObjectIdentifier.get_long", "ObjectIdentifier.set_long", "ObjectIdentifier.set_tuple",
